@@ -21,8 +21,8 @@ func ruleC02(prog *Program, rep *Report) {
 	ruleSurrogates(prog, rep)
 	ruleBigLimitAgree(prog, rep)
 	ruleFillOnce(prog, rep)
-	ruleArmTwinsAll(prog, rep, false) // counters and cursors the exploration keeps abstract
-	ruleRestore(prog, rep) // a number-conversion option overwritten for one call (Unmarshal forces floats) and not put back changes what later parses return
+	ruleArmTwinsAll(prog, rep, false)                                                                                // counters and cursors the exploration keeps abstract
+	ruleRestore(prog, rep)                                                                                           // a number-conversion option overwritten for one call (Unmarshal forces floats) and not put back changes what later parses return
 	rulePoolPut(prog, rep, "oj.Parser", "gen.Parser", "sen.Parser", "oj.Tokenizer", "oj.Validator", "sen.Tokenizer") // a parser put back before its last use mixes two callers' documents
 	rep.Rules = append(rep.Rules, "A-events: value/token events of the four JSON front-ends agree with the reference at every byte (kind of each value: null/true/false/string/number/container, key vs value) - see C03")
 	rep.Rules = append(rep.Rules, "N-mirror: once a number no longer fits the accumulators its bytes are collected as text (Number.BigBuf); for every reachable step of the JSON front-ends (and of the SEN front-ends on JSON numbers) in which the reference is inside a number before and after the byte, the arm either adds the dispatched byte to BigBuf (directly, or through a Number method whose first case does so when the buffer is in use) or is on a path that tested the buffer to be empty: no sign, digit, point or exponent marker of a big number is dropped")
